@@ -20,4 +20,6 @@ func checkC01(p *Prog, r *Report) {
 	wireAolStore(p, r, "C01")
 	checkInitGenesisCallers(p, r, "C01", "x/aol")
 	r.Floor("in-loop-decode-targets(x/aol)", checkLoopFreshDecode(p, r, "C01", func(fn *ssa.Function) bool { return InPkgs(fn, "x/aol") }), 2)
+	checkNoLanguageDowngrade(p, r, "C01")
+	checkModuleExtensionInterfaces(p, r, "C01", []string{"x/aol"})
 }
